@@ -113,6 +113,8 @@ type Cfg struct {
 	ReadOnly        bool   // refuse every mutation with 405 (mirror)
 	Latency         func(ev *Event) time.Duration
 	ManifestCTWrong bool // serve manifests with a wrong Content-Type
+	// ExtraManifestHeader is added to manifest GET / HEAD responses (e.g. a lying Docker-Content-Digest).
+	ExtraManifestHeader map[string]string
 }
 
 // Host is one model registry endpoint.
@@ -655,6 +657,9 @@ func (h *Host) manifest(ev *Event, r *http.Request, body []byte) *response {
 		resp.hdr.Set("Content-Type", ct)
 		if !h.Cfg.NoHeadDigest {
 			resp.hdr.Set("Docker-Content-Digest", d)
+		}
+		for k, v := range h.Cfg.ExtraManifestHeader {
+			resp.hdr.Set(k, v)
 		}
 		resp.body = m.Raw
 		return resp
